@@ -6,11 +6,11 @@ from .C01 import ASSUME
 def main(tier, seed):
     c = Check("C16", tier, seed)
     jobs = []
-    lens = (0, 1, 2) if tier == "quick" else (0, 1, 2, 3)
+    lens = (0, 1, 2, 3)
     pols = ("fifo", "lifo") if tier == "quick" else ("explore",)
     for mode in ("parallel", "sequence"):
         for n in lens:
-            for inner in (1, 2):
+            for inner in (1, 2, 3):   # 3: a chain of acts long enough to have a middle element
                 # thorough: every service order up to 2 list elements; 3 elements under FIFO and LIFO (the orders of 6+ simultaneously open acts explode)
                 for pol in (pols if (tier == "quick" or n <= 2) else ("fifo", "lifo")):
                     jobs.append(("props.gen", "generated", ("C16", mode, n, inner, pol, 60 if tier == "quick" else 400)))
@@ -26,4 +26,4 @@ def main(tier, seed):
              "generator completion and flow continuation are compared with reference counts. Hooks: five setup acts (created, completed, before_update, updated, step) on a step, "
              "the workflow or an act, with and without a pushed act; fired counts per lifecycle event are compared with the reference",
         assumptions=ASSUME,
-        bounds=dict(list_lengths=list(lens), acts_per_group=[1, 2], nesting="generator inside generator (2 x 3 elements)", hooks_on=["step", "workflow", "act"]))
+        bounds=dict(list_lengths=list(lens), acts_per_group=[1, 2, 3], nesting="generator inside generator (2 x 3 elements)", hooks_on=["step", "workflow", "act"]))
